@@ -10,8 +10,13 @@ META = {
                    "operation in flight); `executable()` on a complete order changes neither status, log nor sizes (fix 4d8e701); each simulated "
                    "response handler (place / cancel / update), for the order it handles, either leaves a complete order complete or appends exactly "
                    "one step to executable or complete, legal for every in-flight status, and cancel / update responses never change the matched "
-                   "size; the completion loop only takes complete orders off the live list or completes an order by one step. The per-order facts "
-                   "are tied to whole runs by correspondence on status logs, sizes and bet ids after every update."),
+                   "size; the completion loop only takes complete orders off the live list or completes an order by one step. Whole-run theorems "
+                   "by induction over every function of an update (any markets, any interleaving, any scripts): EXECUTION_COMPLETE is final and "
+                   "the order never leaves the blotter (complete_is_final_whole_run); in every reachable state of a run whose requests go through "
+                   "the order's own market no order has two operations outstanding (queued packages + pending lists hold each id at most once) and "
+                   "an order with an outstanding operation rejects every further cancel / update / replace and every further placement "
+                   "(one_operation_in_flight_whole_run, Lemmas/Flight.lean). The per-order facts are tied to whole runs by correspondence on "
+                   "status logs, sizes, bet ids, the handler queue and the foreign-request counter after every update."),
     "level_note": ("Trusted: Lean kernel + standard axioms; hand-written world model validated by whole-simulation correspondence. The global claim "
                    "(every status an order ever passes through) is the per-step theorems plus the oracle that wraps BaseOrder._update_status in "
                    "every run; the replace handler's re-placement branch is covered by correspondence and oracle, not by a theorem. Betfair / Betdaq "
@@ -20,7 +25,10 @@ META = {
                    "process_betdaq_current_order by its own correspondence stream."),
     "trusted_base": [],
     "assumptions": ["a refused (VIOLATION) order that never reached the exchange may be submitted again: VIOLATION -> PENDING is not counted as a "
-                    "return to life (no bet id)"],
+                    "return to life (no bet id)",
+                    "one_operation_in_flight_whole_run assumes that every request goes through the market the order was created for (ghost counter "
+                    "foreign = 0): flumine does not compare order.market_id with the transaction's market, and a placement through another market "
+                    "while the first is in flight is accepted by the real framework and by the model alike (directed foreign-request runs)"],
 }
 
 PROJECTION = {"R": True, "O": ["id", "status", "complete", "log", "betid", "sm", "avg", "canc", "laps", "void"], "Q": True, "F": True}
